@@ -324,6 +324,102 @@ def plumbing_cells(quick):
     return cells
 
 
+# ------------------------------------------------------------------------------------------------
+# settings HISTORIES (round 4): balanced sequences of __enter__ / __exit__ played before the call.  Layers carrying the same "obj" id are
+# the SAME Python context object (re-entrant use: enter twice, exit twice; re-use after exit); the specification (theorem
+# C16_balanced_history_restores) says that after a balanced history the values in force are the initial ones, so spec_state ignores
+# cfg["hist"] and the call that follows must behave as under fresh settings.
+
+def history_families(dtype):
+    V = jitter_values(dtype)
+    out = []
+    for vname in ("big", "large", "zero"):
+        v = V[vname]
+        A = dict(_cj(dtype, v, others=v, half=v), obj=0)
+        B = dict(_cj(dtype, V["mid"] * 3, others=V["mid"] * 3), obj=1)
+        M = {"k": "mt", "v": {"big": 1, "large": 6, "zero": 0}[vname], "obj": 2}
+        N = {"k": "mt", "v": 5, "obj": 3}
+        E = lambda lay: dict(lay, ev="+")
+        X = lambda lay: {"ev": "-", "obj": lay["obj"]}
+        out += [
+            ("H:reentrant-jitter=" + vname, {"hist": [E(A), E(A), X(A), X(A)]}),
+            ("H:reentrant-tries=" + vname, {"hist": [E(M), E(M), X(M), X(M)]}),
+            ("H:reentrant-both=" + vname, {"hist": [E(A), E(M), E(A), E(M), X(M), X(A), X(M), X(A)]}),
+            ("H:reentrant-thrice=" + vname, {"hist": [E(A), E(A), E(A), X(A), X(A), X(A), E(M), E(M), E(M), X(M), X(M), X(M)]}),
+            ("H:reuse-after-exit=" + vname, {"hist": [E(A), X(A), E(A), X(A), E(M), X(M), E(M), X(M)]}),
+            ("H:nested-different-objects=" + vname, {"hist": [E(A), E(B), E(M), E(N), X(N), X(M), X(B), X(A)]}),
+            ("H:reentrant-around-other=" + vname, {"hist": [E(A), E(B), E(A), X(A), X(B), X(A), E(M), E(N), E(M), X(M), X(N), X(M)]}),
+            # the same object twice in the stack that is still OPEN during the call (idempotent), alone and around another object
+            ("H:open-reentrant=" + vname, {"ctx": [dict(A), dict(M), dict(A), dict(M)]}),
+            ("H:open-reentrant-around-other=" + vname, {"ctx": [dict(A), dict(B), dict(A)]}),
+            # the open object entered once more and left again before the call: its value must still be in force
+            ("H:open-reentrant-inner-left=" + vname, {"ctx": [dict(A), dict(A, exit=True), dict(M), dict(M, exit=True)]}),
+        ]
+    return out
+
+
+def history_cells(quick):
+    cells = []
+    for dtype in ("float64", "float32"):
+        V = jitter_values(dtype)
+        afters = [{}, {"ctx": [_cj(dtype, V["mid"], others=V["mid"] * 1e3)]}, {"j": V["mid"], "mt": 4}, {"ctx": [{"k": "mt", "v": 2}]}]
+        for hi, (label, frag) in enumerate(history_families(dtype)):
+            for pi, pat in enumerate(PLUMB_PATTERNS):
+                for rep in range(1 if quick else 3):
+                    h = crc("hist", dtype, hi, pi, rep)
+                    if quick and pi >= 3 and (hi + pi) % 3 != 0:
+                        continue
+                    after = afters[(h >> 5) % len(afters)] if "hist" in frag else {}
+                    cfg = dict(after)
+                    if "hist" in frag:
+                        cfg["hist"] = frag["hist"]
+                    else:
+                        cfg["ctx"] = frag["ctx"]
+                    explicit = "j" in cfg or "mt" in cfg
+                    api = 0 if (explicit or "nan" in pat) else [0, 1, 2][(h >> 3) % 3]
+                    n = [2, 3, 4, 5][(h >> 4) % 4] if api else [1, 2, 3, 4, 5, 6][(h >> 4) % 6]
+                    shapes = SHAPES[len(pat)]
+                    cell = dict(api=api, dtype=dtype, ci=9000 + hi, cfg=cfg, pi=pi, pat=pat, rep=rep, n=n, src=[label], upper=bool(h & 1),
+                                d32=bool(h & 2), layout="contig", shape=shapes[(h >> 12) % len(shapes)], scale_i=(h >> 16) % 3)
+                    if api == 2:
+                        cell["opclass"] = OPCLASSES[(h >> 20) % len(OPCLASSES)]
+                    cells.append(cell)
+    return cells
+
+
+# ------------------------------------------------------------------------------------------------
+# operator-level cells (round 4): non-dense operators that take the generic LinearOperator._cholesky (api = 2).  Observed: outcome / warnings
+# / factor as for the other routes, PLUS "A unchanged" at the operator level (every representation tensor and the cached op.to_dense() before
+# vs after), and — cells with "first_cfg" — a SECOND factorisation (DenseLinearOperator(op.to_dense()).cholesky() under other settings; op.cholesky itself is memoised) after a
+# first op.cholesky().
+
+def operator_cells(quick):
+    cells = []
+    pats = [p for p in PATTERNS if "nan" not in p and "nanu" not in p]
+    for dtype in ("float64", "float32"):
+        V = jitter_values(dtype)
+        zero = {"ctx": [_cj(dtype, 0.0, others=V["big"])]}
+        stage1 = [dict(), dict(sj=V["mid"]), dict(sj=V["big"], smt=2), dict(smt=5), zero, dict(smt=1)]
+        stage2 = [(dict(sj=V["big"]), dict()), (dict(), dict(sj=V["big"])), (dict(sj=V["large"], smt=2), dict(sj=V["mid"], smt=4)),
+                  (dict(smt=5), dict(smt=1)), (dict(sj=V["big"], smt=5), zero)]
+        combos = [(None, c) for c in stage1] + stage2
+        for oi, opclass in enumerate(OPCLASSES):
+            for ci, (first, cfg) in enumerate(combos):
+                for pi, pat in enumerate(pats):
+                    if (oi + ci + pi) % (4 if quick else 1) != 0:
+                        continue
+                    h = crc("opl", dtype, opclass, ci, pi)
+                    shapes = SHAPES[len(pat)]
+                    cell = dict(api=2, dtype=dtype, ci=8000 + ci, cfg=cfg, pi=pi, pat=pat, rep=0, n=[2, 3, 4, 5][(h >> 4) % 4],
+                                opclass=opclass, src=["OP:" + opclass + (":second" if first is not None else ":first")],
+                                upper=bool(h & 1), d32=bool(h & 2), layout="contig", shape=shapes[(h >> 12) % len(shapes)],
+                                scale_i=(h >> 16) % 3)
+                    if first is not None:
+                        cell["first_cfg"] = first
+                    cells.append(cell)
+    return cells
+
+
 def crc(*a):
     return zlib.crc32("|".join(str(x) for x in a).encode())
 
@@ -379,6 +475,8 @@ def enumerate_cells(quick):
                                       upper=bool(h & 1), d32=bool(h & 2), layout="contig",
                                       shape=shapes[(h >> 12) % len(shapes)], scale_i=(h >> 16) % 3))
     cells += plumbing_cells(quick)
+    cells += history_cells(quick)
+    cells += operator_cells(quick)
     return cells
 
 
@@ -500,6 +598,9 @@ def build_case(cell, rng, defaults):
             case["cfg"] = json.loads(json.dumps(cell["cfg"]))
             if "src" in cell:
                 case["src"] = list(cell["src"])
+            for extra in ("opclass", "first_cfg"):
+                if extra in cell:
+                    case[extra] = json.loads(json.dumps(cell[extra]))
             case["scale"] = scale
             case["A"] = [[[float(x).hex() for x in row] for row in a.tolist()] for a in members]
             if cell["layout"] == "expand":
@@ -559,36 +660,113 @@ def bits(t):
     return t.view(torch.int64 if t.dtype == torch.float64 else torch.int32).clone()
 
 
+OPCLASSES = ["Sum", "ConstantMul", "Matmul", "AddedDiag"]
+
+
+def build_op(case, a):
+    """a non-dense operator that takes the generic LinearOperator._cholesky and whose to_dense() is EXACTLY the tensor a
+    (splits are exact in floating point: a1 = a rounded to fewer bits, a - a1 is then representable and a1 + (a - a1) == a)"""
+    import linear_operator.operators as O
+    dt = a.dtype
+    lo = torch.float32 if dt == torch.float64 else torch.bfloat16
+    a1 = a.to(lo).to(dt)
+    kind = case["opclass"]
+    if kind == "Sum":
+        return O.SumLinearOperator(O.DenseLinearOperator(a1), O.DenseLinearOperator(a - a1))
+    if kind == "ConstantMul":
+        return O.DenseLinearOperator(a * 0.5) * 2.0
+    if kind == "Matmul":
+        eye = torch.eye(a.shape[-1], dtype=dt).expand(*a.shape).contiguous()
+        return O.MatmulLinearOperator(O.DenseLinearOperator(a.clone()), O.DenseLinearOperator(eye))
+    if kind == "AddedDiag":
+        d1 = a1.diagonal(dim1=-1, dim2=-2).contiguous()
+        return O.AddedDiagLinearOperator(O.DenseLinearOperator(a - torch.diag_embed(d1)), O.DiagLinearOperator(d1))
+    raise ValueError(kind)
+
+
+def reset_settings(S, defaults):
+    """isolation between cases: the class-level values are put back to what they were when the check started (a settings
+    mechanism that leaks a value must fail the case that provoked it, not every later one)"""
+    S.cholesky_jitter._global_float_value = defaults["float32"]
+    S.cholesky_jitter._global_double_value = defaults["float64"]
+    S.cholesky_jitter._global_half_value = defaults["half"]
+    S.cholesky_max_tries._global_value = defaults["mt"]
+    S.trace_mode._state = None
+
+
+def enter_cfg(S, es, cfg, dtype):
+    """play the settings HISTORY of a configuration (cfg["hist"]: balanced enter / exit events, layers with the same "obj" id are
+    the same Python context object: re-entrant use, re-use after exit), then open the stack cfg["ctx"] on the ExitStack"""
+    objs = {}
+
+    def ctx_for(lay):
+        if "obj" in lay and lay["obj"] in objs:
+            return objs[lay["obj"]]
+        if lay["k"] == "cj":
+            cm = S.cholesky_jitter(float_value=lay.get("f"), double_value=lay.get("d"), half_value=lay.get("h"))
+        elif lay["k"] == "mt":
+            cm = S.cholesky_max_tries(lay["v"])
+        else:
+            cm = S.trace_mode(bool(lay["v"]))
+        if "obj" in lay:
+            objs[lay["obj"]] = cm
+        return cm
+    for ev in cfg.get("hist", []):
+        if ev["ev"] == "+":
+            ctx_for(ev).__enter__()
+        else:
+            objs[ev["obj"]].__exit__(None, None, None)
+    for lay in layers_of(cfg, dtype):
+        cm = ctx_for(lay)
+        if lay.get("exit"):
+            with cm:
+                pass
+        else:
+            es.enter_context(cm)
+
+
 def run_impl(case, defaults):
     L = lib()
     S = L["settings"]
     cfg, dtype, n = case["cfg"], case["dtype"], case["n"]
     old_default = torch.get_default_dtype()
     torch.set_default_dtype(torch.float32 if case["d32"] else torch.float64)
-    obs = {"kind": 4, "warns": [], "last": 0.0, "L": None, "exc": None, "unchanged": False, "dtype_ok": True, "shape_ok": True}
+    reset_settings(S, defaults)
+    obs = {"kind": 4, "warns": [], "last": 0.0, "L": None, "exc": None, "unchanged": False, "dtype_ok": True, "shape_ok": True,
+           "op_changed": None}
     try:
-        with contextlib.ExitStack() as es:
-            for lay in layers_of(cfg, dtype):
-                if lay["k"] == "cj":
-                    cm = S.cholesky_jitter(float_value=lay.get("f"), double_value=lay.get("d"), half_value=lay.get("h"))
-                elif lay["k"] == "mt":
-                    cm = S.cholesky_max_tries(lay["v"])
-                else:
-                    cm = S.trace_mode(bool(lay["v"]))
-                if lay.get("exit"):
-                    with cm:
+        a = make_input(case)
+        before, ver = bits(a), a._version
+        op, reps, rep_before, dense_before = None, [], [], None
+        if case["api"] == 2:
+            # operator level: the representation tensors and the (cached) dense form before the factorisation
+            op = build_op(case, a)
+            reps = [t for t in op.representation() if torch.is_tensor(t)]
+            rep_before = [(bits(t), t._version) for t in reps]
+            dense_before = bits(op.to_dense())
+            if "first_cfg" in case:          # a FIRST factorisation under other settings; the observed one is the second
+                with contextlib.ExitStack() as es1, warnings.catch_warnings():
+                    warnings.simplefilter("ignore")
+                    enter_cfg(S, es1, case["first_cfg"], dtype)
+                    try:
+                        op.cholesky(upper=case["upper"])
+                    except Exception:  # noqa
                         pass
-                else:
-                    es.enter_context(cm)
-            a = make_input(case)
-            before, ver = bits(a), a._version
+                reset_settings(S, defaults)
+        with contextlib.ExitStack() as es:
+            enter_cfg(S, es, cfg, dtype)
             with warnings.catch_warnings(record=True) as w:
                 warnings.simplefilter("always")
                 try:
                     if case["api"] == 0:
                         res = L["psc"](a, upper=case["upper"], jitter=cfg.get("j"), max_tries=cfg.get("mt"))
-                    else:
+                    elif case["api"] == 1:
                         res = L["Dense"](a).cholesky(upper=case["upper"]).to_dense()
+                    elif "first_cfg" in case:
+                        # (op.cholesky / op._cholesky are memoised: a second factorisation of what the operator represents NOW)
+                        res = L["Dense"](op.to_dense()).cholesky(upper=case["upper"]).to_dense()
+                    else:
+                        res = op.cholesky(upper=case["upper"]).to_dense()
                     obs["kind"] = 0
                     res = res.detach()
                     obs["dtype_ok"] = res.dtype == a.dtype
@@ -607,8 +785,25 @@ def run_impl(case, defaults):
                 if issubclass(x.category, L["NumericalWarning"]):
                     obs["warns"].append(_num_in(str(x.message), "jitter of"))
             obs["unchanged"] = bool(torch.equal(bits(a), before)) and a._version == ver
+            if op is not None:
+                # A unchanged at the OPERATOR level: every tensor of the representation (bits and version counter) and what the
+                # operator represents, op.to_dense(), before vs after; and to_dense() is still exactly the matrix it was built from
+                changed = []
+                for i, (t, (b0, v0)) in enumerate(zip(reps, rep_before)):
+                    if not torch.equal(bits(t), b0) or t._version != v0:
+                        changed.append("representation tensor %d" % i)
+                d1 = op.to_dense()
+                if not torch.equal(bits(d1), dense_before):
+                    changed.append("op.to_dense() (max abs change %.3g, diagonal change of member 0: %s)" % (
+                        float((d1.to(F64) - a.to(F64)).abs().max()),
+                        [float(x) for x in (d1.to(F64) - a.to(F64)).reshape(-1, n, n)[0].diagonal()][:4]))
+                elif not torch.equal(bits(d1), bits(a)):
+                    changed.append("op.to_dense() differs from the matrix the operator was built from")
+                obs["op_changed"] = changed
+                obs["unchanged"] = obs["unchanged"] and not changed
     finally:
         torch.set_default_dtype(old_default)
+        reset_settings(S, defaults)
     return obs
 
 
@@ -688,7 +883,8 @@ def predicate(case, obs, defaults):
     fails = []
     n, dtype = case["n"], case["dtype"]
     if not obs["unchanged"]:
-        fails.append(("input-modified", "A (or its version counter) changed during the call"))
+        fails.append(("input-modified", "A (or its version counter) changed during the call" if not obs.get("op_changed") else
+                      "the operator was modified by its own factorisation: " + "; ".join(obs["op_changed"])))
     if traced(case) or "nanu" in case["pat"]:
         return fails            # outside the property's quantifier (trace mode / non-symmetric input)
     if case["api"] == 1 and n == 1 and any(bool(torch.isnan(m).any()) or float(m.min()) < 0 for m in members_of(case)):
@@ -761,7 +957,7 @@ def predicate(case, obs, defaults):
 
 def key_of(case, cat, obs, defaults):
     j, mt = spec_values(case, defaults)
-    k = {"api": ["psd_safe_cholesky", "DenseLinearOperator.cholesky"][case["api"]], "fail": cat,
+    k = {"api": ["psd_safe_cholesky", "DenseLinearOperator.cholesky", "LinearOperator.cholesky (generic _cholesky, non-dense operator)"][case["api"]], "fail": cat,
          "tries": "nonpositive" if mt <= 0 else "positive"}
     if cat == "wrong-outcome":
         k["observed"] = KIND_NAME[obs["kind"]]
@@ -770,6 +966,10 @@ def key_of(case, cat, obs, defaults):
     k["jitter"] = "zero" if j == 0 else "positive"
     k["jitter_from"] = "argument" if ("j" in cfg and case["api"] == 0) else ("settings" if has("cj") else "default")
     k["tries_from"] = "argument" if ("mt" in cfg and case["api"] == 0) else ("settings" if has("mt") else "default")
+    if case["api"] == 2:
+        k["call"] = "second factorisation" if "first_cfg" in case else "first factorisation"
+    if cfg.get("hist"):
+        k["history"] = "balanced settings history before the call"
     return k
 
 
@@ -884,8 +1084,9 @@ REASON = {1: "outcome kind", 2: "warnings (jitter values)", 3: "factor values", 
 
 def slim(case, obs=None):
     c = {k: case[k] for k in ("api", "dtype", "n", "shape", "upper", "d32", "layout", "pat", "cfg", "scale")}
-    if "src" in case:
-        c["src"] = case["src"]
+    for extra in ("src", "opclass", "first_cfg"):
+        if extra in case:
+            c[extra] = case[extra]
     if obs is not None:
         c["observed"] = {"kind": KIND_NAME[obs["kind"]], "warns": obs["warns"], "exc": obs["exc"]}
     return c
@@ -996,7 +1197,7 @@ def run(ctx):
         outcome[kname] = outcome.get(kname, 0) + 1
         for k in c["pat"]:
             fam[k] = fam.get(k, 0) + 1
-    distinct = len({json.dumps([c["api"], c["dtype"], c["cfg"], c["pat"], c["shape"], c["n"], c["upper"], c["d32"], c["layout"]], sort_keys=True)
+    distinct = len({json.dumps([c["api"], c["dtype"], c["cfg"], c["pat"], c["shape"], c["n"], c["upper"], c["d32"], c["layout"], c.get("opclass"), c.get("first_cfg")], sort_keys=True)
                     for c, o in zip(cases, observations) if c["n"] >= 2 and len(c["pat"]) >= 1 and (o["kind"] != 0 or o["warns"] or len(c["pat"]) > 1)})
     mixed = sum(1 for c, o in zip(cases, observations)
                 if o["kind"] == 0 and o["warns"] and len(set(c["pat"])) > 1)
@@ -1019,6 +1220,9 @@ def run(ctx):
             "_dtype_value_context._set_value, _value_context._set_value, _feature_flag._set_state); __exit__ is not modelled: a context the harness "
             "left again is absent from the model's stack and the comparison checks that its value is really gone. The harness feeds the model and "
             "the oracle the values it ASKED the contexts to provide, never values read back from the library (class-level defaults excepted)",
+            "operator-level cells: the harness builds the non-dense operators with exact floating-point splits and trusts op.representation() to list "
+            "every tensor of the operator; the second factorisation is DenseLinearOperator(op.to_dense()).cholesky() because op.cholesky is memoised; "
+            "balanced settings histories are not passed to the model (theorem C16_balanced_history_restores: they are the identity)",
             "torch.linalg.cholesky_ex is modelled per member by the Cholesky-Banachiewicz kernel `chol_kernel` (info = first non-positive or NaN pivot); "
             "LAPACK itself, torch.isnan/any/clone/diagonal/add_/expand/mT are modelled by their mathematical meaning",
             "binary64 PrimFloat evaluation of the model by vm_compute; float32 inputs are run through the binary64 model "
@@ -1031,13 +1235,18 @@ def run(ctx):
         "rule": "cells = dtype x configuration (how jitter/max_tries arrive: defaults, explicit, settings, both, trace) x batch pattern; plus the "
                 "plumbing grid: every jitter source (argument, settings context with decoys / slot only / all slots, nested, left-again, "
                 "argument over context, default) x boundary value (0, 1e-30, default, mid, big, 50) x pattern and every max_tries source x "
-                "{-2,-1,0,1,2,3,5,7} x pattern, direct call and operator route; "
+                "{-2,-1,0,1,2,3,5,7} x pattern, direct call and operator route; balanced settings histories (the same context object entered twice / "
+                "re-used / nested around others) before the call; non-dense operators (Sum, ConstantMul, Matmul, AddedDiag) taking the generic _cholesky with "
+                "A-unchanged observed at the operator level (representation tensors and cached to_dense() before vs after) and second factorisations; "
                 "(member families pd/pdk/pdx/sx/z/s<k>/ind/negd/nan/nanu) with n, batch shape, upper, default dtype, memory layout rotated by a "
                 "seed-independent hash; the seed picks the matrix entries. non-trivial = n >= 2 and (an error is raised, or jitter is added, or the "
                 "batch has more than one member); distinct by (api, dtype, configuration, pattern, shape, n, upper, default dtype, layout)",
         "dropped_borderline_cells": dropped, "mismatches": len(mism), "mismatch_reasons": sorted({REASON.get(w, str(w)) for _, w in mism}),
         "direct_property_failures": direct, "direct_failure_keys": sorted(direct_keys),
         "outcomes": outcome, "member_families": fam, "mixed_batches_with_jitter": mixed,
+        "operator_level_cases": {k: sum(1 for c in cases if c["api"] == 2 and c.get("opclass") == k) for k in OPCLASSES},
+        "second_factorisation_cases": sum(1 for c in cases if "first_cfg" in c),
+        "settings_history_cases": sum(1 for c in cases if c["cfg"].get("hist") or any("obj" in l for l in c["cfg"].get("ctx", []))),
         "value_sources": sources, "jitter_in_force": jit_class, "max_tries_in_force": tries_hist,
         "zero_jitter_cases_ending_in_NotPSDError": zero_notpsd,
         "wall_impl_s": round(t_impl, 1),
